@@ -1241,6 +1241,63 @@ func main() {
 	if err := os.WriteFile(filepath.Join(os.Args[2], "SortKeysGen.v"), []byte(sk.String()), 0o644); err != nil {
 		die("%v", err)
 	}
+
+	// ---- HashPathsGen.v: how the local variables that generateIsolatedHash feeds to the hasher are defined
+	var hashFn *ast.FuncDecl
+	for _, f := range pkgs["internal/linker"].files {
+		for _, d := range f.Decls {
+			if fd, ok := d.(*ast.FuncDecl); ok && fd.Name.Name == "generateIsolatedHash" && fd.Body != nil {
+				hashFn = fd
+			}
+		}
+	}
+	if hashFn == nil {
+		die("linker.generateIsolatedHash not found")
+	}
+	hashed := map[string]bool{}
+	nWrites := 0
+	ast.Inspect(hashFn.Body, func(n ast.Node) bool {
+		call, ok := n.(*ast.CallExpr)
+		if !ok {
+			return true
+		}
+		name := exprText(call.Fun)
+		if name != "hashWriteLengthPrefixed" && name != "hashWriteUint32" && name != "hash.Write" {
+			return true
+		}
+		nWrites++
+		for _, a := range call.Args {
+			ast.Inspect(a, func(m ast.Node) bool {
+				if id, ok := m.(*ast.Ident); ok {
+					hashed[id.Name] = true
+				}
+				return true
+			})
+		}
+		return true
+	})
+	if nWrites == 0 {
+		die("no hash write found in generateIsolatedHash (unexpected shape)")
+	}
+	var defs []string
+	ast.Inspect(hashFn.Body, func(n ast.Node) bool {
+		if as, ok := n.(*ast.AssignStmt); ok && len(as.Lhs) == len(as.Rhs) {
+			for i, l := range as.Lhs {
+				if id, ok := l.(*ast.Ident); ok && hashed[id.Name] && id.Name != "hash" {
+					defs = append(defs, fmt.Sprintf("  (%s, %s)", coqStr(id.Name), coqStr(exprText(as.Rhs[i]))))
+				}
+			}
+		}
+		return true
+	})
+	sort.Strings(defs)
+	var hp strings.Builder
+	hp.WriteString("(* GENERATED by gen/cmd/t4mapsites from internal/linker/linker.go: do not edit.\n   generateIsolatedHash: every assignment to a local variable that is passed to a hash write: (variable, assigned expression). *)\n")
+	hp.WriteString("From Coq Require Import String List.\nImport ListNotations.\nOpen Scope string_scope.\n\n")
+	fmt.Fprintf(&hp, "Definition hash_operand_definitions : list (string * string) := [\n%s\n].\n\nDefinition hash_write_count : nat := %d%%nat.\n", strings.Join(defs, ";\n"), nWrites)
+	if err := os.WriteFile(filepath.Join(os.Args[2], "HashPathsGen.v"), []byte(hp.String()), 0o644); err != nil {
+		die("%v", err)
+	}
 	if os.Getenv("T4_VERBOSE") != "" {
 		for _, s := range sites {
 			fmt.Printf("MAP  %s:%d %s  range %s #%d sortAfter=%v\n", s.file, s.line, s.fn, s.expr, s.ord, s.sortAfter)
